@@ -190,6 +190,8 @@ def nontrivial_key(c, impl):
 def classify(c, impl):
     labs = ['feature:' + k for k, v in c['features'].items() if v]
     labs.append('observe=%s' % c.get('observe', False))
+    labs.append('ignored_jobs=%d' % len(c.get('ignored', [])))
+    labs.append('steps_with_quota=%d' % sum(1 for o in c['history'] if o.get('quota') is not None))
     if 'panic' in impl:
         return labs + ['panic']
     labs.append('observed_insertions>0' if impl['observations'] else 'observed_insertions=0')
